@@ -2,12 +2,13 @@
 //
 // stdin (one request per line, wire format of vdata.h), stdout one flushed answer line per request (so that the number of
 // complete answer lines identifies the request a crash or hang happened in):
-//   RT <data>        ->  RT <eq> <jsonhex> <data'>     eq: 1/0 = Data::operator==(d, fromJSON(toJSON(d))), T = fromJSON threw (then <data'> = message hex)
+//   RT <data>        ->  RT <eq> <jsonhex> <data'>     eq: 1/0 = Data::operator==(d, fromJSON(toJSON(d))), - = not evaluated (depth > 12), T = fromJSON threw (then <data'> = message hex)
 //   EV <event...>    ->  EV <eq> <asdata> | <event'>   eq: Event::operator==(e, fromData(Data(e)))
 //   PJ <byteshex>    ->  PJ ok <natoms> | PJ throw | PJ stdexc   parse arbitrary bytes; result is walked and re-serialised so a dangling result would be seen
 #include "vdata.h"
 #include <iostream>
 #include <string>
+#include <algorithm>
 
 using namespace uscxml;
 
@@ -17,6 +18,17 @@ static size_t walk(const Data& d) {
 	for (auto& kv : d.compound) n += kv.first.size() * 0 + walk(kv.second);
 	return n;
 }
+
+static size_t depth(const Data& d) {
+	size_t m = 0;
+	for (auto& c : d.array) m = std::max(m, depth(c));
+	for (auto& kv : d.compound) m = std::max(m, depth(kv.second));
+	return m + 1;
+}
+
+// Data::operator== costs 2^depth comparisons (operator!= evaluates a<b || b<a and operator< compares the children with !=), so it is
+// only consulted for trees nested at most this deep; deeper trees are judged by the structural walk alone (eq is printed as '-')
+static const size_t kMaxDepthForOperatorEq = 12;
 
 int main(int argc, char** argv) {
 	std::ios::sync_with_stdio(false);
@@ -33,7 +45,7 @@ int main(int argc, char** argv) {
 				os << "RT ";
 				try {
 					Data d2 = Data::fromJSON(js);
-					os << ((d == d2) ? "1" : "0") << " " << vd::hex(js) << " ";
+					os << (std::max(depth(d), depth(d2)) > kMaxDepthForOperatorEq ? "-" : (d == d2) ? "1" : "0") << " " << vd::hex(js) << " ";
 					vd::dumpData(os, d2);
 				} catch (Event e) {
 					std::string msg = e.name + " " + (e.data.hasKey("cause") ? e.data.at("cause").atom : std::string());
